@@ -551,7 +551,7 @@ func genC15(r *rng.R, tier string, steer bool, idx int) *trace.Trace {
 				}
 				sz = budget - used
 			}
-			t.Ops = append(t.Ops, trace.Op{Op: "fh_insert", ID: nid, Len: sz, Seed: r.Uint64() % 100000})
+			t.Ops = append(t.Ops, trace.Op{Op: "fh_insert", ID: nid, Len: sz, Seed: pickObjSeed(r)})
 			liveIDs = append(liveIDs, nid)
 			nid++
 			used += sz
@@ -561,7 +561,7 @@ func genC15(r *rng.R, tier string, steer bool, idx int) *trace.Trace {
 			}
 		case 2:
 			if len(liveIDs) > 0 {
-				t.Ops = append(t.Ops, trace.Op{Op: "fh_overwrite", ID: rng.Pick(r, liveIDs), Seed: r.Uint64() % 100000})
+				t.Ops = append(t.Ops, trace.Op{Op: "fh_overwrite", ID: rng.Pick(r, liveIDs), Seed: pickObjSeed(r)})
 			}
 		case 3:
 			if len(liveIDs) > 0 {
@@ -582,8 +582,38 @@ func genC15(r *rng.R, tier string, steer bool, idx int) *trace.Trace {
 	return t
 }
 
+// Special seeds give degenerate contents: the statement is about "exactly the
+// bytes stored", whatever they are - including objects that look like free
+// (zeroed) space.
+const (
+	seedAllZero  = 100001
+	seedAllOnes  = 100002
+	seedZeroTail = 100003 // non-zero first byte, zeros after it
+)
+
+func pickObjSeed(r *rng.R) uint64 {
+	if r.Chance(0.06) {
+		return rng.Pick(r, []uint64{seedAllZero, seedAllZero, seedAllOnes, seedZeroTail})
+	}
+	return r.Uint64() % 100000
+}
+
 func objBytes(n int, seed uint64) []byte {
 	b := make([]byte, n)
+	switch seed {
+	case seedAllZero:
+		return b
+	case seedAllOnes:
+		for i := range b {
+			b[i] = 0xFF
+		}
+		return b
+	case seedZeroTail:
+		if n > 0 {
+			b[0] = 0x5A
+		}
+		return b
+	}
 	x := seed*2654435761 + 12345
 	for i := range b {
 		x = x*6364136223846793005 + 1442695040888963407
